@@ -272,6 +272,36 @@ def xproc_shard(spec, res, rng):
             items.append({"t": "solver", "cls": cname, "cons": cons, "vars": al.vars, "x": al.v(0), "y": al.v(1 % al.nvars), "p": base64.b64encode(pickle.dumps(s, -1)).decode()})
         except Exception:  # noqa: BLE001
             continue
+    # replacement solvers: what they replace is looked up by the expression's hash, which has to mean the same thing in
+    # the process that unpickles them (floats: sorts and rounding modes are arguments of the expression)
+    for j in range(6):
+        try:
+            s = claripy.SolverReplacement() if j % 2 == 0 else claripy.SolverHybrid()
+            srt = claripy.FSORT_DOUBLE if j % 3 else claripy.FSORT_FLOAT
+            f_ = claripy.FPS(f"rf{j}", srt, explicit_name=True)
+            g_ = claripy.FPS(f"rg{j}", srt, explicit_name=True)
+            x_ = claripy.BVS(f"rx{j}", 8, explicit_name=True)
+            fsum = claripy.fpAdd(claripy.fp.RM.RM_TowardsZero, f_, g_)
+            if j % 2 == 0:
+                s.add_replacement(f_, claripy.FPV(1.5, srt))
+                s.add_replacement(x_, claripy.BVV(7 + j, 8))
+                s.add_replacement(fsum, claripy.FPV(4.0, srt))
+            else:
+                s.add([f_ == claripy.FPV(1.5, srt), x_ == 7 + j])
+            exprs = [f_, x_, fsum, x_ + 1]
+            expect = []
+            for e_ in exprs:
+                try:
+                    vals_ = tuple(s.eval(e_, 2))
+                    # (two values = there are more: which ones come back is the backend's choice, not compared)
+                    expect.append(repr(vals_) if len(vals_) < 2 else "several")
+                except claripy.errors.ClaripyError as ex_:
+                    expect.append("raised:" + type(ex_).__name__)
+            items.append({"t": "replsolver", "cls": type(s).__name__, "expect": expect, "p": base64.b64encode(pickle.dumps((s, exprs), -1)).decode()})
+            keep.append((s, exprs))
+        except Exception as ex_:  # noqa: BLE001
+            res.count("replsolver_setup_raised")
+            res.setadd("replsolver_setup_raised", repr(ex_)[:120])
     work = os.path.join(ROOT, ".work", PID)
     os.makedirs(work, exist_ok=True)
     path = os.path.join(work, f"xproc{spec['stream']}.json")
@@ -290,6 +320,7 @@ def xproc_shard(spec, res, rng):
     res.count("xproc_children")
     res.count("xproc_exprs", out["exprs"])
     res.count("xproc_solvers", out["solvers"])
+    res.count("xproc_replacement_solvers", out.get("replsolvers", 0))
     res.count("xproc_solver_answers_judged", out["answers"])
     res.setadd("child_hashseeds", spec["hashseed"])
     for it in items:
